@@ -154,7 +154,9 @@ async def connect(  # pylint: disable=too-many-locals
 
         await atv.connect()
     except Exception:
-        await session_manager.close()
+        # Closing the facade closes every protocol that was already connected as
+        # well as the session manager (instead of only the session manager)
+        await asyncio.gather(*atv.close(), return_exceptions=True)
         raise
     return atv
 
